@@ -180,7 +180,7 @@ fn c01_sync_preamble() {
     kani::cover!(rn == 3, "1-byte id");
 }
 
-// @h props=C01 tier=quick t=300 expect=fail sub=twin
+// @h props=C01 tier=quick t=900 expect=fail sub=twin
 // @fn wtransport-proto/src/stream.rs StreamUniRemoteQuic::upgrade
 // @bound twin: claims the acceptor always leaves the input untouched; must be refuted
 #[kani::proof]
